@@ -1,8 +1,130 @@
-import DendroModel.Basic.Tree
-open DendroModel
+import DendroModel.Model.C03Heap
+open DendroModel DendroModel.C03
+
+/-! Line protocol of `drv_c03`
+  `step <R|U|N> <op> <args…> <tree> [<tree2>]`  →  `ok <R|U|N> <tree>` | `err <class>`
+      nodes created by the operation print as `*` (their ids are not observable on the Python side)
+  `heap <prim> <args…> <tree>`                   →  `ok <shape>` | `err`
+      the pointer primitive run on the heap of `<tree>`, read back from the top-most ancestor of the old root -/
+
+def pBool (s : String) : Option Bool := if s == "1" then some true else if s == "0" then some false else none
+def pONat (s : String) : Option (Option Nat) := if s == "-" then some none else s.toNat?.map some
+def pList (s : String) : Option (List Nat) :=
+  if s == "-" then some [] else (s.splitOn ",").mapM String.toNat?
+def pRooted (s : String) : Option (Option Bool) :=
+  if s == "R" then some (some true) else if s == "U" then some (some false) else if s == "N" then some none else none
+def rRooted : Option Bool → String
+  | some true => "R" | some false => "U" | none => "N"
+
+mutual
+/-- `T.render` with ids `≥ star` printed as `*` -/
+def renderStar (star : Nat) : T → String
+  | .node i x l _ cs =>
+    "(" ++ (if i ≥ star then "*" else toString i) ++ " " ++ (match x with | some k => toString k | none => "-") ++ " "
+      ++ renderOLen l ++ renderStarL star cs ++ ")"
+def renderStarL (star : Nat) : List T → String
+  | [] => ""
+  | c :: cs => " " ++ renderStar star c ++ renderStarL star cs
+end
+
+/-- parse `<op> <args…>` followed by the tree(s); returns the operation, the tree and the `*` threshold -/
+def parseOp (ws : List String) : Option (Op × T × Nat) :=
+  let one (rest : List String) (mk : T → Option Op) : Option (Op × T × Nat) :=
+    match parseTree rest with
+    | some (t, []) => (mk t).map (fun op => (op, t, maxId t + 1))
+    | _ => none
+  match ws with
+  | "remove" :: p :: c :: s :: rest => one rest fun _ => do some (.removeChild (← p.toNat?) (← c.toNat?) (← pBool s))
+  | "newchild" :: p :: x :: l :: rest => one rest fun _ => do some (.newChild (← p.toNat?) (← pONat x) (← parseOLen l))
+  | "insertnew" :: p :: i :: x :: l :: rest =>
+    one rest fun _ => do some (.insertNewChild (← p.toNat?) (← i.toNat?) (← pONat x) (← parseOLen l))
+  | "addsub" :: p :: rest =>
+    match parseTree rest with
+    | some (t, rest2) => match parseTree rest2 with
+      | some (sub, []) => p.toNat?.map fun p => (.addSub p sub, t, maxId t + 1 + sub.size)
+      | _ => none
+    | none => none
+  | "insertsub" :: p :: i :: rest =>
+    match parseTree rest with
+    | some (t, rest2) => match parseTree rest2, p.toNat?, i.toNat? with
+      | some (sub, []), some p, some i => some (.insertSub p i sub, t, maxId t + 1 + sub.size)
+      | _, _, _ => none
+    | none => none
+  | "insertmove" :: p :: i :: c :: rest => one rest fun _ => do some (.insertMove (← p.toNat?) (← i.toNat?) (← c.toNat?))
+  | "setparent" :: c :: q :: rest => one rest fun _ => do some (.setParent (← c.toNat?) (← q.toNat?))
+  | "edgecollapse" :: c :: a :: rest => one rest fun _ => do some (.edgeCollapse (← c.toNat?) (← pBool a))
+  | "collapseclade" :: c :: rest => one rest fun _ => do some (.collapseClade (← c.toNat?))
+  | "reseed" :: n :: c :: s :: rest => one rest fun _ => do some (.reseedAt (← n.toNat?) (← pBool c) (← pBool s))
+  | "rerootnode" :: n :: ub :: s :: c :: rest =>
+    one rest fun _ => do some (.rerootAtNode (← n.toNat?) (← pBool ub) (← pBool s) (← pBool c))
+  | "rerootedge" :: n :: l1 :: l2 :: ub :: s :: rest =>
+    one rest fun _ => do some (.rerootAtEdge (← n.toNat?) (← parseOLen l1) (← parseOLen l2) (← pBool ub) (← pBool s))
+  | "outgroup" :: n :: s :: rest => one rest fun _ => do some (.toOutgroup (← n.toNat?) (← pBool s))
+  | "suppress" :: rest => one rest fun _ => some .suppressUnif
+  | "collapsebasal" :: su :: rest => one rest fun _ => do some (.collapseBasal (← pBool su))
+  | "polytomize" :: su :: rest => one rest fun _ => do some (.polytomize (← pBool su))
+  | "collapseunweighted" :: thr :: ub :: rest =>
+    one rest fun _ => do some (.collapseUnweighted (← Frac.parse thr) (← pBool ub))
+  | "resolve" :: lim :: ub :: rest => one rest fun _ => do some (.resolve (← lim.toNat?) (← pBool ub))
+  | "prunesubtree" :: c :: ub :: s :: rest => one rest fun _ => do some (.pruneSubtree (← c.toNat?) (← pBool ub) (← pBool s))
+  | "filterleaves" :: keep :: r :: ub :: s :: rest =>
+    one rest fun _ => do some (.filterLeaves (← pList keep) (← pBool r) (← pBool ub) (← pBool s))
+  | "prunenotaxa" :: r :: ub :: s :: rest => one rest fun _ => do some (.pruneNoTaxa (← pBool r) (← pBool ub) (← pBool s))
+  | "prunetaxa" :: bits :: ub :: s :: rest => one rest fun _ => do some (.pruneTaxa (← pList bits) (← pBool ub) (← pBool s))
+  | "retaintaxa" :: bits :: ub :: s :: rest => one rest fun _ => do some (.retainTaxa (← pList bits) (← pBool ub) (← pBool s))
+  | "ladderize" :: a :: rest => one rest fun _ => do some (.ladderize (← pBool a))
+  | "reorder" :: rest => one rest fun _ => some .reorder
+  | "rotate" :: m :: rest => one rest fun _ => do some (.rotate (← m.toNat?))
+  | "shuffle" :: rs :: rest => one rest fun _ => do some (.shuffleTaxa (← pList rs))
+  | "reorient" :: k :: m :: rest => one rest fun _ => do some (.reorient (← k.toNat?) (← m.toNat?))
+  | "encode" :: s :: c :: rest => one rest fun _ => do some (.encode (← pBool s) (← pBool c))
+  | _ => none
+
+def top (h : Heap) : Nat → Nat → Nat
+  | 0, i => i
+  | f + 1, i => match h.par i with
+    | some p => top h f p
+    | none => i
+
+def heapOut (t : T) (root : Nat) : Option Heap → String
+  | none => "err"
+  | some h => "ok " ++ (Heap.readback h (t.size + 2) (top h (t.size + 2) root)).render
+
+def handleHeap (ws : List String) : String :=
+  let withTree (rest : List String) (f : T → Heap → Option String) : String :=
+    match parseTree rest with
+    | some (t, []) => (f t (Heap.ofTree none Heap.empty t)).getD "bad-op"
+    | _ => "bad-op"
+  match ws with
+  | "add" :: self :: node :: rest => withTree rest fun t h => do
+      some (heapOut t t.id (some (Heap.addChild h (← self.toNat?) (← node.toNat?))))
+  | "insert" :: self :: idx :: node :: rest => withTree rest fun t h => do
+      some (heapOut t t.id (some (Heap.insertChild h (← self.toNat?) (← idx.toNat?) (← node.toNat?))))
+  | "remove" :: self :: node :: s :: rest => withTree rest fun t h => do
+      let self ← self.toNat?; let node ← node.toNat?
+      some (heapOut t t.id (if (← pBool s) then Heap.removeChildSuppress h self node else Heap.removeChild h self node))
+  | "setparent" :: node :: q :: rest => withTree rest fun t h => do
+      some (heapOut t t.id (some (Heap.setParent h (← node.toNat?) (some (← q.toNat?)))))
+  | "collapse" :: node :: rest => withTree rest fun t h => do
+      some (heapOut t t.id (Heap.edgeCollapse h (← node.toNat?)))
+  | "invert" :: head :: rest => withTree rest fun t h => do
+      let head ← head.toNat?
+      some (heapOut t head (Heap.edgeInvert h head))
+  | "reseed" :: target :: rest => withTree rest fun t h => do
+      let target ← target.toNat?
+      some (heapOut t target (Heap.reseedChain h (t.size + 2) target))
+  | _ => "bad-op"
 
 def handle (ws : List String) : String :=
   match ws with
+  | "step" :: r :: rest =>
+    match pRooted r, parseOp rest with
+    | some rooted, some (op, t, star) =>
+      match step { t := t, rooted := rooted } op with
+      | .ok s => "ok " ++ rRooted s.rooted ++ " " ++ renderStar star s.t
+      | .error e => "err " ++ e.render
+    | _, _ => "bad-op"
+  | "heap" :: rest => handleHeap rest
   | _ => "bad-op"
 
 def main : IO Unit := do driverLoop (← IO.getStdin) handle
